@@ -585,7 +585,7 @@ impl Node for HashMap<String, Expression> {
     fn apply<V: Visitor>(self, visitor: &mut V) -> Result<Self, crate::reduce::Error> {
         let visited: Vec<_> = self
             .into_iter()
-            .map(|(k, v)| visitor.reduce(v).map(|v| (k, v)))
+            .map(|(k, v)| v.apply(visitor).map(|v| (k, v)))
             .collect::<Result<_, _>>()?;
 
         Ok(visited.into_iter().collect())
